@@ -316,6 +316,8 @@ class RefServer:
     def apply_fault(self, action):
         if action == "NO":
             self.emit(status(b"NO", None, b"injected refusal"))
+        elif action == "NO-BARE":
+            self.emit(status(b"NO"))  # no response code, no text (legal)
         elif action == "BYE":
             self.emit(status(b"BYE", None, b"injected bye"))
             self.closed = True
@@ -466,6 +468,11 @@ class RefServer:
                 offered = v.decode().split()
         if mech not in offered:
             self.violations.append("AUTHENTICATE with mechanism %s not announced (%s)" % (mech, " ".join(offered)))
+        # a server may refuse (or drop) the AUTHENTICATE command itself, before any challenge of a multi-step mechanism
+        f = self.fault_for("AUTHSTART")
+        if f:
+            self.auth_log.append((mech, chan, None))
+            return self.apply_fault(f)
         if mech == "PLAIN":
             if len(args) < 2:
                 self.auth_state = ("PLAIN", [])
